@@ -33,10 +33,10 @@ def run(ctx):
     elif not ctx.replay:
         if not os.environ.get("VERIF_SKIP_MC"):
             r1 = ctx.model_check("trie", "MC_SyncProc", "MC_SyncProc_cov.cfg", coverage=True, timeout=900)
-            ctx.check_coverage(r1, ["Respond", "Late", "Migrate"])
+            ctx.check_coverage(r1, ["SUBSET", "Late", "Migrate"])  # "SUBSET ..." is the Respond disjunct (its text is cut after the quantifier)
             ctx.model_check("trie", "MC_SyncProc", "MC_SyncProc.cfg", timeout=ctx.pick(900, 3000),
                             constants={"Vals": ctx.pick("{1}", "{1, 2}")})
-        procb = ctx.behaviours("trie", "Gen_SyncProc", "Gen_SyncProc.cfg", simulate="num=%d" % ctx.pick(40, 300),
+        procb = ctx.behaviours("trie", "Gen_SyncProc", "Gen_SyncProc.cfg", simulate="num=%d" % ctx.pick(25, 300),
                                depth=32, seed=ctx.seed + 3, timeout=ctx.pick(900, 3000))
     if procb:
         pin = ctx.path("in", "proc.ndjson")
